@@ -257,7 +257,7 @@ PROPS['C15'] = floor_prop(
     ('rec ',), 'non-trivial = records were written',
     families=[('floor', 100, 2000), ('floors', 100, 2000), ('maint', 60, 1000), ('sched', 60, 1000), ('rm', 60, 1000)])
 import c15 as _c15
-PROPS['C15']['extra'] = _c15.event_trace
+PROPS['C15']['extra'] = _c15.real_code
 PROPS['C16'] = floor_prop(
     'C16', ['SimProc.Props.C16', 'SimProc.Props.C16W', 'SimProc.Props.C15W', 'SimProc.Props.C16D', 'SimProc.Props.C15D'], ['SimProc/Props/C16.lean', 'SimProc/Props/C16W.lean', 'SimProc/Props/C15W.lean', 'SimProc/Props/C16D.lean', 'SimProc/Props/C15D.lean'],
     {'d': _c.fields('val', 'vh', 'cost', 'rval'), 'm': _c.fields('val', 'vh'), 'p': _c.fields('v'),
@@ -281,7 +281,8 @@ PROPS['C20'] = dict(
     monitors=M.MONITORS['C20'], nontrivial=has(('res ok', 'sres err', 'sres found')), stats=op_stats, divergence_is_witness=True,
     divergence_text='an asset created while the simulation runs must behave like the model\'s constructor + immediate '
                     'initialisation (= the same asset created before the start, shifted)',
-    rule='family sys: assets of every kind constructed before the first run, between runs and from inside events; '
+    rule='family sys: assets of every kind constructed before the first run, between runs and from inside events (family sysi, '
+         'implementation only: also from inside another asset\'s initialize and from the start-up hook of a user\'s ResourceManager); '
          'non-trivial = a creation happened while the simulation was initialised',
     assumptions=['new devices are wired to existing devices that are not sinks'],
 )
@@ -301,7 +302,7 @@ PROPS['C14'] = dict(
     rule='families env and floor against the model (= determinism transfer, scenarios carry random asset-id offsets), plus '
          'metamorphic runs of the real code: same seed twice with the unpatched random weights, fresh interpreters with '
          'different PYTHONHASHSEED, split runs vs one run with keyed weights, simulate_multiple_times in-process vs worker '
-         'processes; non-trivial = same-time events with different priorities executed or an event paused',
+         'processes, groups whose parallel input machines tie exactly re-run after varying amounts of allocated objects; non-trivial = same-time events with different priorities executed or an event paused',
     assumptions=['worker-process equality and independence from hash order / object identity are CHECKED, not proved'],
     partial=['worker processes, hash order: checked only (cannot be proved about CPython from here)'],
 )
